@@ -1,0 +1,45 @@
+//go:build verif
+
+package graphsync
+
+import (
+	"github.com/ipfs/go-graphsync"
+
+	datatransfer "github.com/filecoin-project/go-data-transfer/v2"
+)
+
+// This file is only compiled with the `verif` build tag. It exposes internals
+// to the external verification harness; it does not change behaviour.
+
+// VerifChannel is a snapshot of the bookkeeping of one tracked channel
+type VerifChannel struct {
+	IsOpen             bool
+	RequestID          *graphsync.RequestID
+	RequesterCancelled bool
+	XferStarted        bool
+	PendingExtensions  int
+	StoreRegistered    bool
+}
+
+// VerifSnapshot returns the tracked channels and the request -> channel map
+func (t *Transport) VerifSnapshot() (map[datatransfer.ChannelID]VerifChannel, map[graphsync.RequestID]datatransfer.ChannelID) {
+	chans := map[datatransfer.ChannelID]VerifChannel{}
+	t.dtChannelsLk.RLock()
+	for k, c := range t.dtChannels {
+		c.lk.RLock()
+		v := VerifChannel{IsOpen: c.isOpen, RequesterCancelled: c.requesterCancelled, XferStarted: c.xferStarted,
+			PendingExtensions: len(c.pendingExtensions), StoreRegistered: c.hasStore()}
+		if c.requestID != nil {
+			id := *c.requestID
+			v.RequestID = &id
+		}
+		c.lk.RUnlock()
+		chans[k] = v
+	}
+	t.dtChannelsLk.RUnlock()
+	reqs := map[graphsync.RequestID]datatransfer.ChannelID{}
+	t.requestIDToChannelID.forEach(func(k graphsync.RequestID, _ bool, chid datatransfer.ChannelID) {
+		reqs[k] = chid
+	})
+	return chans, reqs
+}
